@@ -358,6 +358,26 @@ func c15rigQuiesce(creator string) bool {
 	}
 }
 
+// ------------------------------------------------------------------ resend-period ticks
+
+// c15rigTicks calls f after every tick of a harness-owned 200 ms ticker (the same period and the
+// same runtime timer machinery as Session.backgroundResendPending) until f returns true or
+// max ticks have been consumed.  The bound is therefore relative to the resend period as this
+// process experiences it, not to wall-clock time: a starved process starves both tickers.
+func c15rigTicks(max int, f func(tick int) bool) bool {
+	tk := time.NewTicker(200 * time.Millisecond)
+	defer tk.Stop()
+	for i := 1; i <= max; i++ {
+		<-tk.C
+		if f(i) {
+			return true
+		}
+	}
+	return false
+}
+
+const c15rigMaxTicks = 60
+
 // ------------------------------------------------------------------ raw client
 
 type c15rigEvt struct {
@@ -681,11 +701,11 @@ type c15rigRelay struct {
 }
 
 type c15rigLink struct {
-	down      net.Conn     // client side
-	up        *net.TCPConn // broker side
+	down      net.Conn      // client side
+	up        *net.TCPConn  // broker side
 	upClosed  chan struct{} // closed when the broker closed (or reset) its side
 	dnClosed  chan struct{} // closed when the client side ended
-	propagate atomic.Bool  // forward a client-side end to the broker as FIN
+	propagate atomic.Bool   // forward a client-side end to the broker as FIN
 	cutOnce   sync.Once
 }
 
